@@ -147,10 +147,12 @@ def StrToInt(input_string):
     :return BV:                     bitvector of the integer resulting from the string or -1 in
                                     bitvector if the string cannot be transformed into an integer
     """
-    try:
-        return BVV(int(input_string.value), 64)
-    except ValueError:
+    value = input_string.value
+    # str.to_int is -1 unless the string consists of ASCII digits only; Python's int() also accepts signs,
+    # whitespace, underscores and non-ASCII digits
+    if not (value.isascii() and value.isdigit()):
         return BVV(-1, 64)
+    return BVV(int(value), 64)
 
 
 def StrIsDigit(input_string):
